@@ -53,12 +53,22 @@ class Base(cohdl.Entity):
 
 """
 
+HEAD += """class BaseIn(cohdl.Entity):
+    clk = Port.input(Bit)
+    x = Port.input(Unsigned[4])
+    b = Port.input(BitVector[2])
+    en = Port.input(Bit)
+
+"""
+
+OUT_DECL = "    y = Port.output(Unsigned[4])\n    yb = Port.output(BitVector[2])\n    f = Port.output(Bit)\n"
+
 IFACE = [("clk", "in", "std_logic"), ("x", "in", "unsigned(3 downto 0)"), ("b", "in", "std_logic_vector(1 downto 0)"), ("en", "in", "std_logic"), ("y", "out", "unsigned(3 downto 0)"), ("yb", "out", "std_logic_vector(1 downto 0)"), ("f", "out", "std_logic")]
 
 
 def gen_tree(rs, depth=0):
     kind = rs.choice(KINDS)
-    node = {"kind": kind, "k": rs.range(1, 14), "derived": rs.below(4) == 0, "children": []}
+    node = {"kind": kind, "k": rs.range(1, 14), "derived": rs.choice([0, 0, 0, 0, 1, 2, 3, 3]), "children": []}
     if depth < 2:
         nch = rs.weighted([(3, 0), (4, 1), (3, 2), (1, 3)]) if depth else rs.range(1, 3)
         for j in range(nch):
@@ -139,7 +149,8 @@ def body(node, X, B, E, Y, YB, F, p, hier, classes, L, ind="        "):
         cf = f"{p}c{j}f"
         if hier:
             cname = classes(ch)
-            a(f"{ind}{cname}(clk=self.clk, x={cx}, b={cb}, en={ce}, y={cy}, yb={cyb}, f={cf})")
+            extra = ", g=Signal[Bit]()" if ch["derived"] == 3 else ""
+            a(f"{ind}{cname}(clk=self.clk, x={cx}, b={cb}, en={ce}, y={cy}, yb={cyb}, f={cf}{extra})")
         else:
             body(ch, cx, cb, ce, cy, cyb, cf, f"{p}c{j}_", hier, classes, L, ind)
         fs += [cf, f"{p}w{j}[3]", f"{p}w{j}[0]"]
@@ -180,8 +191,15 @@ def render_hier(tree):
     walk(tree)
     out = [HEAD]
     for cname, n in order:
-        if n["derived"]:
+        if n["derived"] == 1:
             out.append(f"class {cname}(Base):\n    def architecture(self):\n")
+        elif n["derived"] == 2:
+            # derived from a base that declares the inputs only; the outputs are added here (sibling classes of the
+            # same base each add their own)
+            out.append(f"class {cname}(BaseIn):\n{OUT_DECL}\n    def architecture(self):\n")
+        elif n["derived"] == 3:
+            # adds one more output to the inherited ports; classes derived from the same base must not get it
+            out.append(f"class {cname}(Base):\n    g = Port.output(Bit)\n\n    def architecture(self):\n        @std.concurrent\n        def drive_g():\n            self.g <<= self.en\n")
         else:
             out.append(f"class {cname}(cohdl.Entity):\n    clk = Port.input(Bit)\n    x = Port.input(Unsigned[4])\n    b = Port.input(BitVector[2])\n    en = Port.input(Bit)\n    y = Port.output(Unsigned[4])\n    yb = Port.output(BitVector[2])\n    f = Port.output(Bit)\n\n    def architecture(self):\n")
         L = []
@@ -191,7 +209,7 @@ def render_hier(tree):
     L = []
     body(tree, "self.x", "self.b", "self.en", "self.y", "self.yb", "self.f", "", True, classes, L)
     out.append("\n".join(L) + "\n")
-    return "".join(out), [c for c, _ in order]
+    return "".join(out), [(c, n["derived"]) for c, n in order]
 
 
 def render_flat(tree):
@@ -211,7 +229,8 @@ def depth_of(n):
 
 
 def structural(design, text, classes):
-    for cname in classes + ["E"]:
+    for cname, derived in classes + [("E", 0)]:
+        iface = IFACE + [("g", "out", "std_logic")] if derived == 3 else IFACE
         cnt = len(re.findall(rf"(?im)^\s*entity\s+{cname}\s+is\b", text))
         if cnt != 1:
             return {"rule": "template-emitted-once", "entity": cname, "times": cnt}
@@ -219,8 +238,8 @@ def structural(design, text, classes):
         if got is None:
             return {"rule": "interface-missing", "entity": cname}
         g = [(n.lower(), m, re.sub(r"\s+", " ", t.lower())) for n, m, t in got]
-        if g != IFACE:
-            return {"rule": "interface-differs-from-declared-ports", "entity": cname, "emitted": g, "declared": IFACE}
+        if g != iface:
+            return {"rule": "interface-differs-from-declared-ports", "entity": cname, "emitted": g, "declared": iface}
     return None
 
 
@@ -325,6 +344,8 @@ ASSUMPTIONS = [
     "VSIM stands in for a VHDL simulator; both replicas get the same stimulus and independent process-order streams",
     "'inline' = the node's signals, variables and contexts declared directly in the top architecture from the same tree",
     "outputs are compared as raw std_logic strings (an undriven 'U' in one replica must be 'U' in the other)",
+    "entity classes: plain, derived from a base declaring all ports, derived from a base declaring the inputs only (outputs added by each sibling), derived with one more output; "
+    "the emitted interface of every class must be exactly its own declared + inherited ports",
 ]
 
 
